@@ -53,6 +53,11 @@ CASES = [
     # equal-looking named terminal (kept)
     ('start: a ";" b\na: "x"+\nb: X+\nX: "x"', {}, [('xx;xx', ('start', [('a', []), ('b', ['X:x', 'X:x'])]))]),
     ('start: b ";" a\na: "x"+\nb: X+\nX: "x"', {}, [('xx;x', ('start', [('b', ['X:x', 'X:x']), ('a', [])]))]),
+    # template instances: a filtered literal argument and the equal-looking named terminal make different instances; a literal prepared
+    # under a ! rule is not the literal of a plain rule
+    ('start: t{"x"} t{X}\nt{a}: a "y"\nX: "x"', {}, [('xyxy', ('start', [('t', []), ('t', ['X:x'])]))]),
+    ('start: t{X} t{"x"}\nt{a}: a "y"\nX: "x"', {}, [('xyxy', ('start', [('t', ['X:x']), ('t', [])]))]),
+    ('start: c b\n!c: t{"x"}\nb: t{"x"}\nt{a}: a "y"', {}, [('xyxy', ('start', [('c', [('t', ['X:x'])]), ('b', [('t', [])])]))]),
     # names that contain underscores: alternatives whose symbol names concatenate to the same text stay distinct in every engine
     ('start: a\na: x_y z w | x y_z w\nx_y: "p"\nz: "q"\nw: "s"\nx: "p" "p"\ny_z: "q" "q"', {}, [('pqs', ('start', [('a', [('x_y', []), ('z', []), ('w', [])])])), ('ppqqs', ('start', [('a', [('x', []), ('y_z', []), ('w', [])])])),
                                                                                                       ('ppqs', 'rejected'), ('pqqs', 'rejected')]),
